@@ -17,5 +17,5 @@ rc=$?
 grep -E "^(VIOLATION|OK|INCONCLUSIVE|KNOWN-FINDING)" /tmp/mutant-$NAME.log | head -5
 echo "mutant=$NAME check=$ID rc=$rc (log /tmp/mutant-$NAME.log)"
 git -C /repo worktree remove --force $WT >/dev/null 2>&1
-rm -f /verif/.work/alt-*.mod /verif/.work/alt-*.sum
+find /verif/.work -name "alt-*" -mmin +120 -delete 2>/dev/null
 exit $rc
